@@ -1,34 +1,20 @@
-import CedarVerif.Driver.Codec
+import CedarVerif.Driver.Ops.Core
 /-
 Line-protocol driver: one request per line on stdin, one reply per line on stdout.
 Unknown or malformed requests answer `(bad-op)`; the driver never defaults.
+To add ops for a property: create `CedarVerif/Driver/Ops/<X>.lean` exporting `handleX : Sexp → Option String`
+(returning `none` for requests that are not its own), import it here and add it to `handlers`.
 -/
-open CedarVerif Cedar
+open CedarVerif
 
-def encIdx : IdxOutcome → String
-  | .result b => toString b
-  | .panic s => "panic:" ++ s
-  | .fuel => "fuel"
+def handlers : List (Sexp → Option String) := [
+  Ops.handleCore
+]
 
 def handle (x : Sexp) : String :=
-  match x with
-  | .list [.atom "eval", req, ents, env, e] =>
-    match decRequest req, decEntities ents, decSlotEnv env, decExpr e with
-    | some req, some ents, some env, some e => encResult (evaluate req ents env e)
-    | _, _, _, _ => "(bad-op)"
-  | .list [.atom "auth", req, ents, ps] =>
-    match decRequest req, decEntities ents, decPolicies ps with
-    | some req, some ents, some ps => encResponse (isAuthorized req ents ps)
-    | _, _, _ => "(bad-op)"
-  | .list [.atom "like", p, .str t] =>
-    match decPattern p with
-    | some p => s!"(like {M p t.toList} {wm p t.toList} {encIdx (wmIdx p t.toList)})"
-    | none => "(bad-op)"
-  | .list (.atom "ext" :: .str fn :: args) =>
-    match decValues args with
-    | some vs => encResult (callExt fn vs)
-    | none => "(bad-op)"
-  | _ => "(bad-op)"
+  match handlers.findSome? (fun h => h x) with
+  | some r => r
+  | none => "(bad-op)"
 
 partial def loop (h : IO.FS.Stream) (out : IO.FS.Stream) : IO Unit := do
   let line ← h.getLine
